@@ -403,6 +403,38 @@ func genC01(e *emitter, tier string) {
 			e.emit(graphCase("unshaped-input", g, []NamedT{{"x", smallT("f32", sh, 3)}}))
 		}
 	}
+	// ONE tensor read by several nodes that each interpret it against their OWN other operand: a negative index
+	// shared by Gathers over axes of different length, a Reshape target with 0 / -1 shared by two inputs, one
+	// axes tensor for two Unsqueeze / Squeeze nodes of different rank (weight or caller tensor, both node orders):
+	// every node sees the value the producer / caller / model file gave it
+	for _, asInit := range []bool{true, false} {
+		for _, order := range [][]int{{0, 1, 2, 3, 4, 5}, {5, 4, 3, 2, 1, 0}} {
+			idx := idxT("i64", []int{2}, []int{-1, -2})
+			tgt := idxT("i64", []int{2}, []int{0, -1})
+			ax := idxT("i64", []int{1}, []int{-1})
+			nodes := []NodeJ{
+				{Op: "Gather", Ins: []string{"d3", "idx"}, Outs: []string{"g3"}},
+				{Op: "Gather", Ins: []string{"d5", "idx"}, Outs: []string{"g5"}},
+				{Op: "Reshape", Ins: []string{"m23", "tgt"}, Outs: []string{"r23"}},
+				{Op: "Reshape", Ins: []string{"m42", "tgt"}, Outs: []string{"r42"}},
+				{Op: "Unsqueeze", Ins: []string{"d3", "ax"}, Outs: []string{"u1"}},
+				{Op: "Unsqueeze", Ins: []string{"m23", "ax"}, Outs: []string{"u2"}},
+			}
+			g := &GraphJ{Inputs: []VInfoJ{{Name: "d3", Dt: "f32", Dims: []any{3}}, {Name: "d5", Dt: "f32", Dims: []any{5}}, {Name: "m23", Dt: "f32", Dims: []any{2, 3}}, {Name: "m42", Dt: "f32", Dims: []any{4, 2}}},
+				Outputs: []string{"g3", "g5", "r23", "r42", "u1", "u2", "idx", "tgt", "ax"}}
+			for _, k := range order {
+				g.Nodes = append(g.Nodes, nodes[k])
+			}
+			ins := []NamedT{{"d3", smallT("f32", []int{3}, 1)}, {"d5", smallT("f32", []int{5}, 2)}, {"m23", smallT("f32", []int{2, 3}, 3)}, {"m42", smallT("f32", []int{4, 2}, 4)}}
+			if asInit {
+				g.Inits = []InitJ{{Name: "idx", T: idx}, {Name: "tgt", T: tgt}, {Name: "ax", T: ax}}
+			} else {
+				g.Inputs = append(g.Inputs, VInfoJ{Name: "idx", Dt: "i64", Dims: []any{2}}, VInfoJ{Name: "tgt", Dt: "i64", Dims: []any{2}}, VInfoJ{Name: "ax", Dt: "i64", Dims: []any{1}})
+				ins = append(ins, NamedT{"idx", idx}, NamedT{"tgt", tgt}, NamedT{"ax", ax})
+			}
+			e.emit(graphCase("shared-index-tensor", g, ins))
+		}
+	}
 	n := 300
 	maxNodes := 8
 	if tier == "thorough" {
